@@ -172,7 +172,21 @@ pub fn run_cloud(points: &[SpacePoint], cfg: Config) -> (String, String, Option<
         }
         near_s.push_str(&row);
     }
-    let req = format!("cluster {} {} {} {} {}", cfg.min, n, bins_s, near_s, show(&cls));
+    let pts_s = if n == 0 {
+        "-".to_string()
+    } else {
+        points
+            .iter()
+            .map(|p| format!("{:x}:{:x}:{:x}", p.r.value.to_bits(), p.phi.value.to_bits(), p.z.value.to_bits()))
+            .collect::<Vec<_>>()
+            .join(",")
+    };
+    let cfg_s = if cfg.public_api {
+        "pub".to_string()
+    } else {
+        format!("{}:{}:{:x}", cfg.rho_bins, cfg.theta_bins, cfg.max_distance.to_bits())
+    };
+    let req = format!("cluster {} {} {} {} {} {} {}", cfg.min, n, bins_s, near_s, show(&cls), pts_s, cfg_s);
 
     // the real code
     let pts = points.to_vec();
@@ -392,6 +406,45 @@ fn small_cloud(rng: &mut Rng) -> (Vec<SpacePoint>, Config) {
     (pts, cfg)
 }
 
+/// Degenerate point families of C14's quantifier text (clustering stage): r in [0.05, 0.25] m,
+/// |z| <= 1.3 m; collinear rays/chords with perturbations, repeated points, equal radii,
+/// vertical lines, circles through the origin, dyadic grids.
+fn degenerate_cloud(rng: &mut Rng, max_points: usize) -> Vec<SpacePoint> {
+    let n = rng.range(0, max_points as u64) as usize;
+    let eps = *rng.pick(&[0.0, 1e-18, 1e-16, 1e-13, 1e-10, 1e-7, 1e-4, 1e-2]);
+    let fam = rng.below(7);
+    let mut pts = Vec::with_capacity(n);
+    let pm = |rng: &mut Rng| if rng.bool() { 1.0 } else { -1.0 };
+    let (r0, p0, z0) = (0.05 + 0.2 * rng.f64_unit(), (rng.f64_unit() * 2.0 - 1.0) * PI, (rng.f64_unit() * 2.0 - 1.0) * 1.3);
+    let big_r = 0.08 + rng.f64_unit();
+    let alpha = rng.f64_unit() * 2.0 * PI;
+    for k in 0..n {
+        let f = k as f64 / n.max(1) as f64;
+        let p = match fam {
+            0 => sp(0.05 + 0.2 * f, p0 + eps * pm(rng) * rng.f64_unit(), z0 * f),
+            1 => sp_xyz(0.06 + 0.12 * f * alpha.cos() - eps * pm(rng), 0.02 + 0.12 * f * alpha.sin(), 0.5 * f),
+            2 => {
+                let kinds = 1 + (n % 3);
+                sp(r0 + 0.01 * (k % kinds) as f64, p0, z0)
+            }
+            3 => sp(r0, (rng.f64_unit() * 2.0 - 1.0) * PI, (rng.f64_unit() * 2.0 - 1.0) * 1.3),
+            4 => sp(r0 + eps * (k % 2) as f64, p0, -1.3 + 2.6 * f),
+            5 => {
+                let s = alpha + PI + 0.25 * f / big_r;
+                let (x, y) = (big_r * alpha.cos() + big_r * s.cos(), big_r * alpha.sin() + big_r * s.sin());
+                let q = sp_xyz(x + eps * pm(rng), y, z0 * f);
+                sp(q.r.value.clamp(0.05, 0.25), q.phi.value, q.z.value)
+            }
+            _ => {
+                let g = |rng: &mut Rng| rng.below(8) as f64 / 8.0;
+                sp(0.0625 + g(rng) / 8.0, g(rng) * 4.0 - 2.0, g(rng) * 2.0 - 1.0)
+            }
+        };
+        pts.push(p);
+    }
+    pts
+}
+
 // ---------------------------------------------------------------- vertices
 
 pub type TrackSpec = [f64; 8]; // x0 y0 z0 r phi0 h t_inner t_outer
@@ -412,12 +465,95 @@ fn track_key(t: &Track) -> [u64; 8] {
 }
 
 pub fn run_vertices(specs: &[TrackSpec]) -> (String, Option<String>) {
+    let (a, b, _) = run_vertices_full(specs);
+    (a, b)
+}
+
+/// Quantities of `find_vertices`' selection logic recomputed from the helix parameters with the
+/// same `f64` operations as the code (`helix_at` is the real `Helix::at`): both seed filters,
+/// z of the closest approach to the beamline, helix radius.
+pub fn selection_inputs(t: &TrackSpec) -> (bool, f64, f64) {
+    let p = [t[0], t[1], t[2], t[3], t[4], t[5]];
+    let (x0, y0, r) = (t[0], t[1], t[3]);
+    let (t1, t2) = (t[6], t[7]);
+    // arc_length(t_inner, t_outer) > 3.5 cm
+    let delta_t = (t2 - t1).abs();
+    let s = r * delta_t;
+    let delta_z = (hook::helix_at(p, t2).z.value - hook::helix_at(p, t1).z.value).abs();
+    let long_enough = s.hypot(delta_z) > 3.5 * 0.01;
+    // |r - hypot(x0, y0)| < 5.3 cm
+    let near_beam = (r - x0.hypot(y0)).abs() < 5.3 * 0.01;
+    // closest_to_beamline().z
+    let c = hook::helix_at(p, 0.0);
+    let v1 = (c.x.value - x0, c.y.value - y0);
+    let v2 = (-x0, -y0);
+    let dot = v1.0 * v2.0 + v1.1 * v2.1;
+    let det = v1.0 * v2.1 - v1.1 * v2.0;
+    let tc = det.atan2(dot);
+    (long_enough && near_beam, hook::helix_at(p, tc).z.value, r)
+}
+
+/// `vertexsel` request for the model replay; `None` when two kept, non-`==` tracks have the
+/// same z (the order `sort_unstable_by` gives them is not determined by the source).
+pub fn vertexsel_request(specs: &[TrackSpec]) -> Option<String> {
+    let n = specs.len();
+    let tracks: Vec<Track> = specs.iter().map(track).collect();
+    let mut first: HashMap<[u64; 8], usize> = HashMap::new();
+    let cls: Vec<usize> = tracks.iter().enumerate().map(|(i, t)| *first.entry(track_key(t)).or_insert(i)).collect();
+    let sel: Vec<(bool, f64, f64)> = specs.iter().map(selection_inputs).collect();
+    for i in 0..n {
+        for j in 0..i {
+            if sel[i].0 && sel[j].0 && cls[i] != cls[j] && sel[i].1 == sel[j].1 {
+                return None;
+            }
+        }
+        if sel[i].1.is_nan() || sel[i].2.is_nan() {
+            return None;
+        }
+    }
+    let keep: String = if n == 0 { "-".into() } else { sel.iter().map(|s| if s.0 { '1' } else { '0' }).collect() };
+    let list = |f: &dyn Fn(&(bool, f64, f64)) -> f64| -> String {
+        if n == 0 {
+            "-".to_string()
+        } else {
+            sel.iter().map(|s| format!("{:016x}", f(s).to_bits())).collect::<Vec<_>>().join(",")
+        }
+    };
+    let tr = if n == 0 {
+        "-".to_string()
+    } else {
+        specs
+            .iter()
+            .map(|t| t.iter().map(|v| format!("{:x}", v.to_bits())).collect::<Vec<_>>().join(":"))
+            .collect::<Vec<_>>()
+            .join(",")
+    };
+    Some(format!("vertexsel {} {} {} {} {} {}", n, keep, list(&|s| s.1), list(&|s| s.2), show(&cls), tr))
+}
+
+/// (implementation-only answer, oracle verdict, answer in the `vertexsel` syntax)
+pub fn run_vertices_full(specs: &[TrackSpec]) -> (String, Option<String>, String) {
     let tracks: Vec<Track> = specs.iter().map(track).collect();
     let input = tracks.clone();
+    let mut first: HashMap<[u64; 8], usize> = HashMap::new();
+    for (i, t) in input.iter().enumerate() {
+        first.entry(track_key(t)).or_insert(i);
+    }
     let res = match guarded(move || find_vertices(tracks)) {
         Ok(r) => r,
-        Err(m) => return (format!("panic {m}"), Some(format!("find_vertices panicked: {m}"))),
+        Err(m) => {
+            return (format!("panic {m}"), Some(format!("find_vertices panicked: {m}")), format!("panic {m}"))
+        }
     };
+    let rep = |t: &Track| first.get(&track_key(t)).copied().unwrap_or(usize::MAX);
+    let sel_answer = format!(
+        "ok p={} r={}",
+        match &res.primary {
+            None => "none".to_string(),
+            Some(v) => show(&v.tracks.iter().map(|(t, _)| rep(t)).collect::<Vec<_>>()),
+        },
+        show(&res.remainder.iter().map(rep).collect::<Vec<_>>())
+    );
     let mut why = None;
     let mut count: HashMap<[u64; 8], i64> = HashMap::new();
     for t in &input {
@@ -458,7 +594,7 @@ pub fn run_vertices(specs: &[TrackSpec]) -> (String, Option<String>) {
     if !res.secondaries.is_empty() {
         why = Some("secondaries not empty".to_string());
     }
-    (out, why)
+    (out, why, sel_answer)
 }
 
 pub fn vertices_request(specs: &[TrackSpec], imp: &str) -> String {
@@ -555,15 +691,49 @@ pub fn run_request(cmd: &str, args: &[&str]) -> Option<String> {
             let specs: Vec<TrackSpec> = vals.chunks(8).map(|c| c.try_into().unwrap()).collect();
             Some(run_vertices(&specs).0)
         }
-        // The `cluster` request carries bins and adjacency, not the points: it cannot be re-run
-        // on the implementation from the request line alone. `cloud <seed> <index>` regenerates.
-        "cloud" => {
-            let seed: u64 = args.first()?.parse().ok()?;
-            let idx: usize = args.get(1)?.parse().ok()?;
-            let quick = args.get(2).map(|s| *s != "thorough").unwrap_or(true);
-            let mut s = Session::new("c15", if quick { "quick" } else { "thorough" }, seed);
-            generate(&mut s, !quick);
-            s.cases.get(idx).map(|c| c.imp.clone())
+        // `cluster … <points> <params>`: rebuild the points and parameters, re-run the real code;
+        // the bins/adjacency of the line must be the ones the real code computes now.
+        "cluster" if args.len() == 7 => {
+            let min: usize = args[0].parse().ok()?;
+            let mut pts = Vec::new();
+            if args[5] != "-" {
+                for t in args[5].split(',') {
+                    let v: Vec<u64> = t.split(':').filter_map(|x| u64::from_str_radix(x, 16).ok()).collect();
+                    if v.len() != 3 {
+                        return None;
+                    }
+                    pts.push(sp(f64::from_bits(v[0]), f64::from_bits(v[1]), f64::from_bits(v[2])));
+                }
+            }
+            let cfg = if args[6] == "pub" {
+                PUBLIC
+            } else {
+                let v: Vec<&str> = args[6].split(':').collect();
+                if v.len() != 3 {
+                    return None;
+                }
+                Config {
+                    min,
+                    rho_bins: v[0].parse().ok()?,
+                    theta_bins: v[1].parse().ok()?,
+                    max_distance: f64::from_bits(u64::from_str_radix(v[2], 16).ok()?),
+                    public_api: false,
+                }
+            };
+            let (req, imp, _) = run_cloud(&pts, cfg);
+            let same = req.split(' ').skip(1).take(5).eq(args.iter().take(5).copied());
+            Some(if same { imp } else { format!("{imp} (bins/adjacency of the request differ from the recomputed ones)") })
+        }
+        "vertexsel" if args.len() == 6 => {
+            let mut specs: Vec<TrackSpec> = Vec::new();
+            if args[5] != "-" {
+                for t in args[5].split(',') {
+                    let v: Vec<f64> =
+                        t.split(':').filter_map(|x| u64::from_str_radix(x, 16).ok()).map(f64::from_bits).collect();
+                    specs.push(v.try_into().ok()?);
+                }
+            }
+            Some(run_vertices_full(&specs).2)
         }
         _ => None,
     }
@@ -572,7 +742,7 @@ pub fn run_request(cmd: &str, args: &[&str]) -> Option<String> {
 pub fn generate(s: &mut Session, thorough: bool) -> bool {
     let mut rng = Rng::new(s.seed);
     // (i) realistic clouds through the public API
-    let (n_clouds, cap) = if thorough { (400, 2000) } else { (60, 400) };
+    let (n_clouds, cap) = if thorough { (150, 2000) } else { (60, 400) };
     for k in 0..n_clouds {
         let max_points = if k % 10 == 0 { cap } else { cap.min(50 + 30 * (k % 40)) };
         let pts = cloud(&mut rng, max_points);
@@ -580,7 +750,7 @@ pub fn generate(s: &mut Session, thorough: bool) -> bool {
         s.push_oracle("cloud-public", req, imp, why);
     }
     // (ii) the same kind of clouds with other `min` values / coarser grids
-    for k in 0..(if thorough { 400 } else { 60 }) {
+    for k in 0..(if thorough { 200 } else { 60 }) {
         let pts = cloud(&mut rng, if thorough { 600 } else { 200 });
         let cfg = Config {
             min: *rng.pick(&[1usize, 2, 3, 5, 13, 14, 20, 40]),
@@ -594,7 +764,7 @@ pub fn generate(s: &mut Session, thorough: bool) -> bool {
         s.push_oracle("cloud-params", req, imp, why);
     }
     // (iii) small clouds on coarse grids
-    for _ in 0..(if thorough { 100_000 } else { 4000 }) {
+    for _ in 0..(if thorough { 60_000 } else { 4000 }) {
         let (pts, cfg) = small_cloud(&mut rng);
         let (req, imp, why) = run_cloud(&pts, cfg);
         s.push_oracle("small-coarse", req, imp, why);
@@ -612,11 +782,54 @@ pub fn generate(s: &mut Session, thorough: bool) -> bool {
             s.push_oracle("size-boundary", req, imp, why);
         }
     }
-    // (v) find_vertices bookkeeping on track lists of size 0..=8 with ties
-    for _ in 0..(if thorough { 60_000 } else { 3000 }) {
-        let specs = vertex_case(&mut rng);
-        let (imp, why) = run_vertices(&specs);
-        s.push_oracle("vertices", vertices_request(&specs, &imp), imp, why);
+    // (iv') C14 clustering stage on the degenerate families (public API and other parameters)
+    for k in 0..(if thorough { 600 } else { 150 }) {
+        let cap = if thorough { if k % 50 == 0 { 2000 } else { 300 } } else { if k % 30 == 0 { 400 } else { 60 } };
+        let pts = degenerate_cloud(&mut rng, cap);
+        let cfg = if k % 2 == 0 {
+            PUBLIC
+        } else {
+            Config {
+                min: *rng.pick(&[1usize, 3, 13]),
+                rho_bins: *rng.pick(&[250u32, 20]),
+                theta_bins: *rng.pick(&[230u32, 12]),
+                max_distance: *rng.pick(&[0.03, 0.1]),
+                public_api: false,
+            }
+        };
+        let (req, imp, why) = run_cloud(&pts, cfg);
+        s.push_oracle("degenerate", req, imp, why);
     }
+    // (v) find_vertices bookkeeping on track lists of size 0..=8 with ties
+    let mut ambiguous = 0u64;
+    for _ in 0..(if thorough { 30_000 } else { 3000 }) {
+        let specs = vertex_case(&mut rng);
+        let (imp, why, sel) = run_vertices_full(&specs);
+        s.push_oracle("vertices", vertices_request(&specs, &imp), imp, why);
+        match vertexsel_request(&specs) {
+            Some(req) => s.push("vertexsel", req, sel),
+            None => ambiguous += 1,
+        }
+    }
+    s.notes.insert("vertexsel_skipped_ambiguous_z_ties".into(), serde_json::json!(ambiguous));
+    // coverage statistics of the implementation's answers
+    let mut hist: std::collections::BTreeMap<String, u64> = Default::default();
+    for c in &s.cases {
+        if c.req.starts_with("cluster ") {
+            let k = match c.imp.split(' ').nth(1) {
+                Some("c=-") => 0,
+                Some(cs) => cs.matches('|').count() + 1,
+                None => 0,
+            };
+            *hist.entry(format!("clouds_with_{}_clusters", k.min(6))).or_default() += 1;
+            if c.imp.ends_with("r=-") {
+                *hist.entry("clouds_with_empty_remainder".into()).or_default() += 1;
+            }
+        } else if c.req.starts_with("vertexsel ") {
+            let k = if c.imp.contains("p=none") { "vertexsel_primary_none" } else { "vertexsel_primary_some" };
+            *hist.entry(k.into()).or_default() += 1;
+        }
+    }
+    s.notes.insert("coverage".into(), serde_json::json!(hist));
     true
 }
